@@ -452,3 +452,24 @@ def shrink(ctx, case):
 
 def known(ctx, c):
     return None
+
+
+# ---- T1Y: the numerals of this property's models are tied to the current tree.  extract/consts2*.c + a source scan
+# rewrite lean/CoapVerif/Generated/Consts2.lean on every check; Props/C16Consts.lean proves `<model numeral / model
+# function> = Generated.C2.<name>` (design/T1.md).  A changed macro / enum value / case label / literal breaks one of
+# these named obligations.
+LEAN_MODULES = list(LEAN_MODULES) + ["CoapVerif.Props.C16Consts"]
+REQUIRED_THEOREMS = list(REQUIRED_THEOREMS) + [
+    "schemeTable_matches_code",
+    "defaultPortSwitch_matches_code",
+    "portLoop_matches_code",
+    "optVal_matches_code",
+    "uri_numerals_match_code",
+]
+TRUSTED_BASE = list(TRUSTED_BASE) + ["T1 extractors extract/consts2.c, consts2_net.c, consts2_opt.c, consts2_res.c and the source scan vlib/tables.py scan_consts2 / scan_oscore_protect (Generated/Consts2.lean)"]
+_t1x_prev_extract = globals().get("extract")
+
+
+def extract(ctx):
+    from vlib import tables
+    return (_t1x_prev_extract(ctx) if _t1x_prev_extract else []) + tables.extract_consts2()
